@@ -25,6 +25,12 @@ type c05gen struct {
 func (c *c05gen) comment(indent string, what string) {
 	g := c.g
 	c.n++
+	if what == "doc" && indent == "" && g.Chance(0.12) {
+		// a block of directives only: go/ast's Text() of it is empty, but it is the doc block all the same
+		fmt.Fprintf(&c.b, "%s", g.Pick([]string{"//go:generate echo x\n", "//nolint:gochecknoglobals\n", "//go:generate echo a\n//go:generate echo b\n"}))
+		c.cls["doc-of-directives-only"] = true
+		return
+	}
 	switch g.R.Intn(4) {
 	case 0:
 		fmt.Fprintf(&c.b, "%s// %s %d\n", indent, what, c.n)
